@@ -318,3 +318,170 @@ def s_registry(tier):
         fs = by_op.get(opname, [])
         results.append({"name": f"{opname} preserves the registry invariant", "ok": not fs, "backend": "exhaustive-enumeration", "show": f"{n_states} abstract states x operations ({n_ops} transitions)", "detail": str(fs[:2]), "replay": fs[0] if fs else None})
     return results
+
+
+# --------------------------------------------------------------------------- contribution side of "repeatable"
+# The scatter/layout contracts above run System.assemble on dummy contributions whose assembler_callback is trivially
+# idempotent.  What System.assemble relies on from the REAL contributions - a second assembler_callback with nothing
+# changed leaves every quantity they evaluate unchanged, and an assembled-twice system agrees with a freshly built one -
+# is discharged here on real systems that together contain every class of cardillo that defines assembler_callback
+# (the list is extracted from the current source; a class no scene contains is reported in the obligation's text).
+_EVAL_ARGS = ("t", "q", "u", "u_dot", "la_g", "la_gamma", "la_c", "la_N", "la_F")
+_EVAL_SKIP = {"assembler_callback", "deepcopy", "reset", "step_callback", "assemble"}
+
+
+def _real_scenes():
+    """name -> builder() -> System (not assembled)"""
+    from cardillo import System
+    from cardillo.actuators import Motor, PDcontroller, PIDcontroller
+    from cardillo.constraints import Cylindrical, FixedDistance, Prismatic, Revolute, RigidConnection, Spherical
+    from cardillo.contacts import Sphere2Plane, Sphere2Sphere
+    from cardillo.discrete import Frame, PointMass, RigidBody
+    from cardillo.force_laws import KelvinVoigtElement, MaxwellElement, Spring
+    from cardillo.forces import B_Force, B_Moment, Force, Moment
+    from cardillo.interactions import TwoPointInteraction
+    from cardillo.rods import CircularCrossSection, CrossSectionInertias, Simo1986
+    from cardillo.rods.cosseratRod import make_CosseratRod
+    from cardillo.rods.force_line_distributed import Force_line_distributed
+    from cardillo.utility.sensor import Sensor
+
+    def mechanism():
+        s = System()
+        b1 = RigidBody(1.0, np.diag([0.1, 0.2, 0.3]), q0=np.array([0.5, 0, 0, 1, 0, 0, 0.0]), name="b1")
+        b2 = RigidBody(2.0, np.diag([0.3, 0.2, 0.1]), q0=np.array([1.5, 0, 0, 1, 0, 0, 0.0]), name="b2")
+        b3 = RigidBody(1.5, np.diag([0.2, 0.2, 0.1]), q0=np.array([1.5, 0, -1.0, 1, 0, 0, 0.0]), name="b3")
+        b4 = RigidBody(1.5, np.diag([0.2, 0.2, 0.1]), q0=np.array([1.5, 0.8, -1.0, 1, 0, 0, 0.0]), name="b4")
+        pm = PointMass(0.7, q0=np.array([0.0, 2.0, 0.0]), name="pm")
+        pm2 = PointMass(0.4, q0=np.array([0.0, 2.0, -1.0]), name="pm2")
+        j1 = Revolute(s.origin, b1, axis=1, r_OJ0=np.zeros(3), angle0=0.2, name="j1")
+        j2 = Revolute(b1, b2, axis=1, r_OJ0=np.array([1.0, 0, 0]), name="j2")
+        j3 = Revolute(b2, b3, axis=1, r_OJ0=np.array([1.5, 0, -0.5]), name="j3")
+        b5 = RigidBody(0.5, np.diag([0.1, 0.1, 0.1]), q0=np.array([1.5, 1.6, -1.0, 1, 0, 0, 0.0]), name="b5")
+        j5 = Spherical(b4, b5, r_OJ0=np.array([1.5, 1.2, -1.0]), name="j5")
+        j4 = Cylindrical(b3, b4, axis=1)
+        tp = TwoPointInteraction(b1, b2, B_r_CP1=np.array([0, 0.1, 0.2]), B_r_CP2=np.array([0.1, 0, -0.1]), name="tp")
+        tp2 = TwoPointInteraction(s.origin, pm, name="tp2")
+        parts = [
+            b1, b2, b3, b4, b5, pm, pm2, j1, j2, j3, j4, j5,
+            FixedDistance(pm, pm2),
+            Spring(j2, 5.0, compliance_form=False, name="torsion"),
+            Spring(tp, 3.0, l_ref=0.0, compliance_form=True, name="zero_length_spring"),
+            MaxwellElement(tp2, 4.0, 0.6, name="maxwell"),
+            KelvinVoigtElement(TwoPointInteraction(b3, pm, name="tp3"), 2.0, 0.3, compliance_form=True, name="kv"),
+            PIDcontroller(j1, 1.0, 0.5, 0.1, lambda t: np.array([0.3 * t, 0.3])),
+            PDcontroller(j2, 1.0, 0.2, np.array([0.1, 0.0])),
+            Motor(j3, 0.4),
+            Force(np.array([0, 0, -9.81]), b1, name="g1"), B_Force(lambda t: np.array([0.1 * t, 0, 0.2]), b2, B_r_CP=np.array([0.1, 0.2, 0]), name="bf"),
+            Moment(np.array([0, 0.3, 0]), b3, name="m"), B_Moment(lambda t: np.array([0, 0.1, t]), b4, name="bm"),
+            Sphere2Plane(Frame(r_OP=np.array([0, 0, -50.0])), b2, 0.3, r=0.1, e_N=0.2, name="s2p"),
+            Sphere2Sphere(b4, pm2, 0.1, 0.1, 0.2, e_N=0.1, name="s2s"),
+            Sensor(b2, B_r_PQ=np.array([0.1, 0, 0]), name="sensor"),
+        ]
+        s.add(*parts)
+        return s
+
+    def rod_scene(interp, mixed, constraints):
+        def build():
+            s = System()
+            Rod = make_CosseratRod(interpolation=interp, mixed=mixed, constraints=constraints)
+            Q = Rod.straight_configuration(3, 1.7)
+            rod = Rod(CircularCrossSection(0.1), Simo1986(np.array([5.0, 1.0, 1.5]), np.array([0.5, 0.1, 0.15])), 3, Q=Q, q0=Q.copy(), cross_section_inertias=CrossSectionInertias(A_rho0=2.0, B_I_rho0=np.diag([0.3, 0.2, 0.25])), name="rod")
+            s.add(rod, RigidConnection(s.origin, rod, xi2=(0,), name="clamp"), Force(np.array([0, 0.2, -0.1]), rod, (1,), name="tip"), Force_line_distributed(lambda t, xi: np.array([0, 0, -0.3 * (1 + xi)]), rod), Sensor(rod, xi=0.5, name="sensor"))
+            return s
+
+        return build
+
+    scenes = {"mechanism (bodies, joints, force laws, actuators, contacts, sensor)": mechanism}
+    for interp, mixed, constraints in (("Quaternion", True, None), ("Quaternion", False, None), ("SE3", True, (1, 2)), ("R12", False, (0, 1, 2))):
+        scenes[f"rod[{interp}, mixed={mixed}, constraints={constraints}]"] = rod_scene(interp, mixed, constraints)
+    return scenes
+
+
+def _classes_with_assembler_callback():
+    import importlib
+    import inspect
+    import pkgutil
+
+    import cardillo
+
+    out = {}
+    for m in pkgutil.walk_packages(cardillo.__path__, "cardillo."):
+        if ".urdf" in m.name or "visualization" in m.name:
+            continue
+        try:
+            mod = importlib.import_module(m.name)
+        except Exception:  # noqa: BLE001
+            continue
+        for n, c in inspect.getmembers(mod, inspect.isclass):
+            if c.__module__ == mod.__name__ and "assembler_callback" in vars(c):
+                out[f"{c.__module__}.{c.__qualname__}"] = c
+    return out
+
+
+def _evaluate_all(sysm, rng):
+    """every System evaluation routine whose arguments are state/multiplier vectors, at one random state"""
+    import inspect
+
+    vals = dict(t=0.37, q=sysm.q0 + 0.05 * rng.normal(size=sysm.nq), u=rng.normal(size=sysm.nu), u_dot=rng.normal(size=sysm.nu), la_g=rng.normal(size=sysm.nla_g), la_gamma=rng.normal(size=sysm.nla_gamma), la_c=rng.normal(size=sysm.nla_c), la_N=rng.normal(size=sysm.nla_N), la_F=rng.normal(size=sysm.nla_F))
+    out = {}
+    for n, f in inspect.getmembers(type(sysm), inspect.isfunction):
+        ps = [p for p in inspect.signature(f).parameters if p not in ("self", "format")]
+        if n.startswith("_") or n in _EVAL_SKIP or not set(ps) <= set(_EVAL_ARGS):
+            continue
+        try:
+            v = getattr(sysm, n)(*[vals[p] for p in ps])
+        except Exception as e:  # noqa: BLE001  (an evaluation the scene does not support must fail the same way both times)
+            v = f"raised {type(e).__name__}"
+        out[n] = _dense(v) if not isinstance(v, str) else v
+    out["layout"] = np.concatenate([np.concatenate([np.atleast_1d(np.asarray(getattr(c, a, []), dtype=float)).ravel() for a in ("qDOF", "uDOF", "la_gDOF", "la_gammaDOF", "la_cDOF", "la_NDOF", "la_FDOF", "la_SDOF", "la_tauDOF")]) for c in sysm.contributions])
+    return out
+
+
+def _same(a, b):
+    if isinstance(a, str) or isinstance(b, str):
+        return a == b if isinstance(a, str) and isinstance(b, str) else False
+    a, b = np.asarray(a, dtype=float), np.asarray(b, dtype=float)
+    return a.shape == b.shape and bool(np.array_equal(a, b))
+
+
+@contract("C14", "real contributions/a second assemble() with nothing changed leaves every evaluation unchanged", samples=0, replayable=False, timeout=60)
+def c_reassembly_real(k):
+    from vk import kit as K
+    from vk import npshim
+
+    if not k.sym:
+        raise K.Reject("decided by native execution")
+    import contextlib
+    import io
+    import warnings
+
+    classes = _classes_with_assembler_callback()
+    k.covers(*[c.assembler_callback for c in classes.values()])
+    used = set()
+    with npshim.active(False), warnings.catch_warnings(), contextlib.redirect_stdout(io.StringIO()):
+        warnings.simplefilter("ignore")
+        for name, build in _real_scenes().items():
+            s = build()
+            for c in s.contributions:
+                for cls in type(c).__mro__:
+                    used.add(f"{cls.__module__}.{cls.__qualname__}")
+                sub = getattr(c, "subsystem", None)
+                for cls in type(sub).__mro__ if sub is not None else ():
+                    used.add(f"{cls.__module__}.{cls.__qualname__}")
+            ok, _ = k.no_raise(f"{name}: assemble", s.assemble)
+            if not ok:
+                continue
+            first = _evaluate_all(s, np.random.default_rng(5))
+            s.assemble()
+            second = _evaluate_all(s, np.random.default_rng(5))
+            s.assemble()
+            third = _evaluate_all(s, np.random.default_rng(5))
+            fresh_sys = build()
+            fresh_sys.assemble()
+            fresh = _evaluate_all(fresh_sys, np.random.default_rng(5))
+            for key in first:
+                k.prove(f"{name}: {key} is unchanged by a second and a third assemble()", _same(first[key], second[key]) and _same(first[key], third[key]), show=f"max deviation {np.max(np.abs(np.asarray(first[key], dtype=float) - np.asarray(third[key], dtype=float))) if not isinstance(first[key], str) and np.shape(first[key]) == np.shape(third[key]) and np.size(first[key]) else 'n/a'}")
+                k.prove(f"{name}: {key} of the re-assembled system equals that of a freshly built one", _same(third[key], fresh[key]))
+    missing = sorted(set(classes) - used - {"cardillo.system.System"})
+    # vacuity guard, not a clause of the property: a class added later that no scene contains is named here, it does not fail the check
+    k.prove("vacuity guard: the scenes exercise the assembler_callback of at least 18 classes", len(set(classes) & used) >= 18, show=f"{len(set(classes) & used)} of {len(classes)} classes; in no scene: {missing}")
